@@ -109,6 +109,16 @@ impl TaskManager {
 					}
 
 					running.store(false, Ordering::SeqCst);
+
+					// A memtable that was queued while this round was finishing
+					// found `running` still set, so `wake_up_memtable` did not
+					// notify (it only does when the task is not running). Look
+					// once more now that the flag is clear, or that memtable -
+					// and every writer stalled behind it - waits for a wake-up
+					// that nobody will send.
+					if core.has_pending_immutables() && !stop_flag.load(Ordering::SeqCst) {
+						notify.notify_one();
+					}
 				}
 			});
 			task_handles.lock().unwrap().as_mut().unwrap().push(handle);
